@@ -407,7 +407,20 @@ def slow_subscriber(run, rng):
             w.advance(delay + 0.5)
     written = []
     cur = w.value(oid)
-    for k in range(rng.choice([2, 3, 4, 6])):
+    nwrites = rng.choice([2, 3, 4, 6])
+    # one of the subscriptions is cancelled in the middle of it: what waits in the queue for it is not sent any more
+    cancel = (rng.randrange(1, nwrites), rng.choice(keys)) if rng.random() < 0.5 else None
+    cancelled_at = None
+    for k in range(nwrites):
+        if cancel and k == cancel[0]:
+            i_, proc_, conf_ = cancel[1]
+            req = SubscribeCOVRequest(subscriberProcessIdentifier=proc_, monitoredObjectIdentifier=oid, destination=w.dev.address)
+            ack = w.subs[i_].call(req)
+            w.hist.append(("cancel", i_, proc_, oid, round(CLOCK.now - CLOCK.START, 2)))
+            run.count("cancels")
+            if not isinstance(ack, SimpleAckPDU):
+                return w.fail("cancellation-not-acknowledged", answer=type(ack).__name__)
+            cancelled_at = (CLOCK.now, len(written))
         if o["kind"] == "analog":
             cur = f32(cur + rng.choice([-3, 2, 4]) * o["inc"])
         elif o["kind"] == "binary":
@@ -429,6 +442,15 @@ def slow_subscriber(run, rng):
                 vals.append(BinaryPV.enumerations.get(v, v) if isinstance(v, str) else (f32(v) if isinstance(v, float) else v))
         run.count("notifications_checked", len(vals))
         detail = dict(subscriber=i, proc=proc, confirmed=confirmed, written=repr(written), notified=repr(vals), unanswered_for=delay)
+        if cancel and (i, proc, confirmed) == cancel[1]:
+            late = [round(n["t"] - cancelled_at[0], 2) for j, n in got if j == i and n["proc"] == proc and n["obj"] == oid and n["t"] > cancelled_at[0] + 1e-9]
+            run.count("cancellations_with_notifications_waiting")
+            if late:
+                return w.fail("notification-after-cancellation/slow-subscriber", seconds_after_the_acknowledged_cancellation=late, **detail)
+            it = iter(written[:cancelled_at[1]])
+            if not all(any(x == y for y in it) for x in vals):
+                return w.fail("notifications-out-of-order/slow-subscriber", **detail)
+            continue
         if sorted(map(repr, vals)) != sorted(map(repr, written)):
             return w.fail("qualifying-change-not-notified/slow-subscriber" if len(vals) < len(written) else "change-notified-more-than-once/slow-subscriber", **detail)
         if vals != written:
